@@ -424,16 +424,82 @@ def r5(ctx, sp):
             rep.ok('C20.R5', 'scan.l:%d <%s> %r: newline %s, linenum %s' % (r.line, scs, r.pat, 'possible' if nl else 'impossible', 'advanced' if incs else 'untouched'))
     return n
 
+# ------------------------------------------------------------------ R6, R7
+
+def r6(ctx, sp):
+    """R6: start conditions of flex's own scanner that are entered with yy_push_state are left only with yy_pop_state, never
+    with BEGIN, and the other way round.  A pushed state (comment, code block, line directive, %top block) is entered from
+    several outer states and must return to the one it came from; leaving it with BEGIN(X) puts the copier of user text in
+    the wrong state for every entry but one (text such as the %} of a %{ %} action is then copied as user code)."""
+    rep = ctx.rep
+    push = {}; begin = {}; pops = {}
+    def expand(a):
+        return a.replace('END_CODEBLOCK', 'yy_pop_state();').replace('START_CODEBLOCK', 'yy_push_state(CODEBLOCK);')
+    for r in sp.rules:
+        a = expand(r.action)
+        for m in re.finditer(r'yy_push_state\s*\(\s*(\w+)\s*\)', a): push.setdefault(m.group(1), []).append(r)
+        for m in re.finditer(r'\bBEGIN\s*\(\s*(\w+)\s*\)', a): begin.setdefault(m.group(1), []).append(r)
+        if re.search(r'yy_pop_state\s*\(', a):
+            for sc in (sp.sc_order if r.scs == ['*'] else (r.scs or ['INITIAL'])): pops.setdefault(sc, []).append(r)
+    if len(push) < 5: rep.broken('C20.R6: only %d start conditions of scan.l are entered with yy_push_state (7 confirmed)' % len(push))
+    n = 0
+    for S in sorted(push):
+        n += 1
+        bad = [r for r in sp.rules if r.scs != ['*'] and r.active_in(S, sp) and re.search(r'\bBEGIN\s*\(', expand(r.action))]
+        if S in begin:
+            rep.fail('C20.R6', 'C20.R6:scan.l:%s:entered-by-BEGIN-and-push' % S, 'scan.l:%d' % begin[S][0].line,
+                     'start condition %s is entered with yy_push_state (scan.l:%d) and also with BEGIN (scan.l:%d): its rules cannot know whether to pop' % (S, push[S][0].line, begin[S][0].line))
+        elif bad:
+            rep.fail('C20.R6', 'C20.R6:scan.l:%s:%s:left-by-BEGIN' % (S, bad[0].pat), 'scan.l:%d <%s>' % (bad[0].line, S),
+                     'start condition %s is entered with yy_push_state from %d rule(s) but rule %r leaves it with BEGIN: the state it was entered from is lost '
+                     '(e.g. a comment inside a %%{ %%} action then ends in the wrong state and the closing %%} is copied as user code)' % (S, len(push[S]), bad[0].pat),
+                     replay_input='rule  a  %{ /* c */ return 1; %}')
+        elif S not in pops:
+            rep.fail('C20.R6', 'C20.R6:scan.l:%s:never-popped' % S, 'scan.l:%d' % push[S][0].line, 'start condition %s is pushed but no rule active in it pops' % S)
+        else:
+            rep.ok('C20.R6', 'start condition %s: entered by yy_push_state (%d rules), left only by yy_pop_state (%d rules)' % (S, len(push[S]), len(pops[S])))
+    for S in sorted(pops):
+        if S not in push:
+            n += 1
+            rep.fail('C20.R6', 'C20.R6:scan.l:%s:pop-without-push' % S, 'scan.l:%d' % pops[S][0].line, 'a rule active in %s calls yy_pop_state but nothing enters %s with yy_push_state' % (S, S))
+    return n
+
+def r7(ctx):
+    """R7: a new input file starts at line 1: every function that installs a new input file name (stores infilename from a
+    file-name argument) stores the constant 1 to linenum on every path to its return."""
+    rep = ctx.rep; prog = ctx.flex
+    n = 0
+    for f in set(prog.functions.values()):
+        res = ir.Resolver(f)
+        if f.name in ('flexscan', 'yyparse', 'flexinit', 'flex_main', 'readin'): continue     # #line directives / initialisation set both explicitly
+        st_name = [x for x in f.ins if x.op == 'store' and res.loc(x.ops[1]) == ('global', 'infilename')]
+        opens = [c for c in f.ins if c.op == 'call' and c.callee in ('fopen', 'freopen')]
+        if not st_name or not (opens or any(c.op == 'load' and res.loc(c.ops[0]) == ('global', 'stdin') for c in f.ins)): continue
+        n += 1
+        cfg = prog.cfg(f)
+        resets = [x for x in f.ins if x.op == 'store' and res.loc(x.ops[1]) == ('global', 'linenum') and x.ops[0] == ('int', 1)]
+        rets = [x for x in cfg.reach_from_block(f.entry, avoid=resets) if x.op == 'ret']
+        key = 'C20.R7:%s:%s:linenum-reset' % (f.file, f.name)
+        if resets and not rets:
+            rep.ok('C20.R7', '%s(): installs a new input file and resets linenum to 1 on every path' % f.name)
+        else:
+            rep.fail('C20.R7', key, fwhere(f), '%s() switches to a new input file (sets infilename) but can return without setting linenum = 1: with several input files '
+                     'every #line of the second file is too large by the length of the first' % f.name, replay_input='flex a.l b.l')
+    if n == 0: rep.broken('C20.R7: no function that installs a new input file name was found (set_input_file vanished?)')
+    return n
+
 def run(ctx):
     rep = ctx.rep
     sp = lex.parse_spec(ctx.art.source('scan.l'))
     rep.require(len(sp.rules) >= 250, 'scan.l model has only %d rules' % len(sp.rules))
     rep.setcount('scan_l_rules', len(sp.rules))
-    r1(ctx); r2(ctx, sp); r3(ctx, sp); r4(ctx); r5(ctx, sp)
+    r1(ctx); r2(ctx, sp); r3(ctx, sp); r4(ctx); r5(ctx, sp); r6(ctx, sp); r7(ctx)
     rep.floor('C20.R1', 2, 'line_directive_out + the %top trampoline')
     rep.floor('C20.R2', 60, 'raw-echo rule x copying start condition pairs')
     rep.floor('C20.R3', 8, 'entry rules + 2 cross-module openers + section 3')
     rep.floor('C20.R4', 1, 'lineno in filter_fix_linedirs')
+    rep.floor('C20.R6', 6, 'pushed start conditions of scan.l')
+    rep.floor('C20.R7', 1, 'set_input_file')
     rep.floor('C20.R5', 250, 'one obligation per non-EOF rule of scan.l')
     rep.undecided += ['byte-for-byte equality of copied text for all contents', 'correctness of each linenum value passed to line_directive_out',
                       'm4 macro names and $n inside user text (protected by the quotes checked here)']
